@@ -173,7 +173,11 @@ pub fn step_buffer_unordered(c: &ACfg) {
     let w = gh::task_waker(t);
     let wakes0 = gh.task_wakes;
     let mut cx = Context::from_waker(&w);
+    let a0 = gh::allocs();
+    gh::alloc_track(true);
     let r = unsafe { Pin::new_unchecked(&mut a) }.poll_next(&mut cx);
+    gh::alloc_track(false);
+    vassert!(gh::allocs() == a0, "C18:buffered adapter allocated during poll_next");
     let out = match r {
         Poll::Ready(Some(x)) => Out::Item(x),
         Poll::Ready(None) => Out::End,
@@ -205,7 +209,11 @@ pub fn step_try_buffer_unordered(c: &ACfg) {
     let w = gh::task_waker(t);
     let wakes0 = gh.task_wakes;
     let mut cx = Context::from_waker(&w);
+    let a0 = gh::allocs();
+    gh::alloc_track(true);
     let r = unsafe { Pin::new_unchecked(&mut a) }.poll_next(&mut cx);
+    gh::alloc_track(false);
+    vassert!(gh::allocs() == a0, "C18:buffered adapter allocated during poll_next");
     let out = match r {
         Poll::Ready(Some(Ok(x))) => Out::Item(x),
         Poll::Ready(Some(Err(e))) => Out::ErrItem(e),
@@ -243,7 +251,11 @@ pub fn step_for_each(c: &ACfg) {
     let w = gh::task_waker(t);
     let wakes0 = gh.task_wakes;
     let mut cx = Context::from_waker(&w);
+    let a0 = gh::allocs();
+    gh::alloc_track(true);
     let r = unsafe { Pin::new_unchecked(&mut a) }.poll(&mut cx);
+    gh::alloc_track(false);
+    vassert!(gh::allocs() == a0, "C18:for_each_concurrent allocated during poll");
     let woken_t = gh.task_wakes[t] > wakes0[t];
     let present2 = a.verif_stream_present();
     let s = fub::snap(a.verif_futures(), c.n, t);
